@@ -383,11 +383,25 @@ class SourceIndex(object):
         return self._mro_cache[key]
 
     def subclasses(self, cls):
-        out = []
-        for c in self.class_table().values():
-            if c is not cls and cls in self.mro(c):
-                out.append(c)
-        return out
+        cache = self.__dict__.setdefault('_sub_cache', {})
+        if id(cls) not in cache:
+            out = []
+            for c in self.class_table().values():
+                if c is not cls and cls in self.mro(c):
+                    out.append(c)
+            cache[id(cls)] = out
+        return cache[id(cls)]
+
+    def methods_named(self, name):
+        """All methods with this name in any class (cached)."""
+        cache = self.__dict__.setdefault('_meth_cache', None)
+        if cache is None:
+            cache = {}
+            for c in self.class_table().values():
+                for mname, m in class_methods(c).items():
+                    cache.setdefault(mname, []).append(m)
+            self._meth_cache = cache
+        return cache.get(name, [])
 
     def find_method(self, cls, name):
         for c in self.mro(cls):
